@@ -45,6 +45,8 @@ def funcParams (id : String) : Option (List K) :=
   match id with
   | "obs" => some [.int64]
   | "obsS" => some [.string]
+  | "obsC" => some [.int64]
+  | "inj" => some []
   | "cat" => some [.string, .string]
   | "boom" => some []
   | "sum3" => some [.int8, .uint16, .float32]
@@ -66,8 +68,12 @@ def prepArgs : List K → List Val → Option (List Val)
 
 def applyFunc (id : String) (args : List Val) (env : Env) : Option (Val × Env) :=
   match id, args with
-  | "obs", [v] => some (.nil, { env with trace := env.trace ++ [("obs", [v])] })
-  | "obsS", [v] => some (.nil, { env with trace := env.trace ++ [("obsS", [v])] })
+  | "obs", [v] => some (.nil, { env with trace := ("obs", [v]) :: env.trace })
+  | "obsS", [v] => some (.nil, { env with trace := ("obsS", [v]) :: env.trace })
+  | "obsC", [v] => some (.nil, { env with trace := ("obsC", [v]) :: env.trace })
+  | "inj", [] =>
+    -- the host injects the name `late` (once) while the rule is running
+    some (.nil, if (env.lookupBase "late").isSome then env else env.setBase "late" (.val (.i .int64 100)))
   | "cat", [.s a, .s b] => some (.s (a ++ b), env)
   | "boom", [] => none
   | "neg", [.b x] => some (.b (!x), env)
@@ -100,6 +106,7 @@ def methodParams (m : String) : Option (List K) :=
   | "Echo32" => some [.int32]
   | "AddI64" => some [.int64]
   | "Twice" => some [.int16]
+  | "Note" => some [.int64]
   | _ => none
 
 def fieldVal (fields : List (String × Field)) (f : String) : Val :=
@@ -117,6 +124,7 @@ def execMethod (env : Env) (name : String) (args : List Val) : Res Val × Env :=
         | some ks =>
           match prepArgs ks args, m with
           | some [v], "Echo32" => (.ok v, env)
+          | some [v], "Note" => (.ok .nil, { env with trace := ("note", [v]) :: env.trace })
           | some [.i _ x], "AddI64" =>
             (match fieldVal fields "I64" with
              | .i _ y => (.ok (.i .int64 (x + y)), env)
@@ -498,14 +506,22 @@ def evalConcItem (P : Params) (env : Env) : ConcItem → Res Unit × Env
   | .call c => match evalCall P env c with
     | (.ok _, e) => (.ok (), e) | (.err c, e) => (.err c, e) | (.panic, e) => (.panic, e)
 
-/-- ConcStatement.Evaluate, children in list order (the interleaving is GV.Eval.Conc's subject):
-    every child runs; the block fails, without a cited line of its own, if any child failed. -/
-def evalConc (P : Params) : List ConcItem → Env → Bool → Res Unit × Env
-  | [], env, failed => (if failed then .err none else .ok (), env)
+/-- the block's error is the list of its children's errors: the first one is what a reader (and
+    the cited line) sees -/
+def firstErr (failed : Option (Option Nat)) (c : Option Nat) : Option (Option Nat) :=
+  match failed with | some f => some f | none => some c
+
+def concOut (failed : Option (Option Nat)) : Res Unit :=
+  match failed with | some c => .err c | none => .ok ()
+
+/-- ConcStatement.Evaluate, children in list order (interleavings: GV.Props.C18): every child
+    runs; the block fails, after all of them, if any child failed. -/
+def evalConc (P : Params) : List ConcItem → Env → Option (Option Nat) → Res Unit × Env
+  | [], env, failed => (concOut failed, env)
   | it :: rest, env, failed =>
     match evalConcItem P env it with
     | (.ok _, e1) => evalConc P rest e1 failed
-    | (.err _, e1) => evalConc P rest e1 true
+    | (.err c, e1) => evalConc P rest e1 (firstErr failed c)
     | (.panic, e1) => (.panic, e1)
 
 mutual
@@ -526,7 +542,7 @@ mutual
       match evalAssign P env a with
       | (.ok _, e1) => (.normal, e1) | (.err c, e1) => (.err c, e1) | (.panic, e1) => (.panic, e1)
     | .conc items =>
-      match evalConc P items env false with
+      match evalConc P items env none with
       | (.ok _, e1) => (.normal, e1) | (.err c, e1) => (.err c, e1) | (.panic, e1) => (.panic, e1)
     | .for _ init step cond body =>
       match init, step with
